@@ -343,6 +343,12 @@ class HTTPRequestParser:
             if connection.lower() == "close":
                 self.connection_close = True
 
+        if version != "1.1" and "TRANSFER_ENCODING" in headers:
+            # RFC 9112 6.1: a Transfer-Encoding in a message that is not
+            # HTTP/1.1 means the framing is faulty; the message may be
+            # processed but the connection must be closed afterwards.
+            self.connection_close = True
+
         if not self.chunked:
             cl = headers.get("CONTENT_LENGTH", "0")
 
